@@ -40,7 +40,7 @@ ProjMatch(e, r) == /\ e.post.obs /\ e.post.ok
                    /\ (e.valued => e.post.data = Flat(r.grid))
 \* C05: the conservation law, evaluated on the logged ledger
 LedgerOK(e, r) == /\ e.dd = 0
-                  /\ e.tracked => IF faulted THEN SubBag(ExpectedLive(r), e.live) ELSE SameBag(e.live, ExpectedLive(r))
+                  /\ e.tracked => IF faulted THEN SubBagFast(ExpectedLive(r), e.live) ELSE SameBagFast(e.live, ExpectedLive(r))
 
 Adopt(r) == /\ phase' = r.phase /\ grid' = r.grid /\ handle' = r.handle /\ held' = r.held
 
